@@ -283,6 +283,37 @@ func (ch *channel) addInitDataAndUpdateTimescale(stream stream, init *mp4.InitSe
 	return nil
 }
 
+// getTrData returns the data of a registered track (trDatas is written by addTrData under mu).
+func (ch *channel) getTrData(name string) (*trData, bool) {
+	ch.mu.RLock()
+	defer ch.mu.RUnlock()
+	rd, ok := ch.trDatas[name]
+	return rd, ok
+}
+
+// getOrAddRawTrData returns the data of a track in raw-segment mode, registering it if needed.
+func (ch *channel) getOrAddRawTrData(name string) *trData {
+	ch.mu.Lock()
+	defer ch.mu.Unlock()
+	rd, ok := ch.trDatas[name]
+	if !ok {
+		rd = &trData{name: name}
+		ch.trDatas[name] = rd
+	}
+	return rd
+}
+
+// trDataSnapshot returns a copy of the track table and the master track name.
+func (ch *channel) trDataSnapshot() (map[string]*trData, string) {
+	ch.mu.RLock()
+	defer ch.mu.RUnlock()
+	trDatas := make(map[string]*trData, len(ch.trDatas))
+	for name, rd := range ch.trDatas {
+		trDatas[name] = rd
+	}
+	return trDatas, ch.masterTrName
+}
+
 func (ch *channel) addChunkData(rsd recSegData) {
 	slog.Debug("addChunkData", "chName", ch.name, "trName", rsd.name, "seqNr", rsd.seqNr, "chunkNr", rsd.chunkNr, "dur", rsd.dur)
 	ch.recSegCh <- rsd
@@ -290,11 +321,12 @@ func (ch *channel) addChunkData(rsd recSegData) {
 
 func (ch *channel) receivedSegData(rsd recSegData) {
 	log := slog.Default().With("chName", ch.name, "trName", rsd.name, "seqNr", rsd.seqNr)
-	if _, ok := ch.trDatas[rsd.name]; !ok {
+	if _, ok := ch.getTrData(rsd.name); !ok {
 		log.Error("received segData for unknown track")
 		return
 	}
 	name := rsd.name
+	_, masterTrName := ch.trDataSnapshot()
 	switch {
 	case rsd.chunkNr == 0:
 		log.Debug("Received new segment")
@@ -318,14 +350,14 @@ func (ch *channel) receivedSegData(rsd recSegData) {
 			}
 		}
 
-		if ch.masterSegDuration == 0 && name == ch.masterTrName {
+		if ch.masterSegDuration == 0 && name == masterTrName {
 			// Evaluate at least two durations to see if the are the same
 			sdb := ch.segTimesGen.segDataBuffers[name]
 			if sdb.nrItems() < 2 {
 				return
 			}
 			for i := uint32(0); i < sdb.nrItems(); i++ {
-				if name == ch.masterTrName && ch.masterSegDuration == 0 {
+				if name == masterTrName && ch.masterSegDuration == 0 {
 					// Evaluate the first two durations to see if they are consecutive with same duration. If not, drop the oldest one.
 					if sdb.items[1].seqNr != sdb.items[0].seqNr+1 || sdb.items[1].dur != sdb.items[0].dur || sdb.items[1].dur == 0 {
 						ch.segTimesGen.dropSeqNr(sdb.items[0].seqNr)
@@ -482,7 +514,8 @@ func (ch *channel) updateAndWriteMPD(log *slog.Logger) error {
 // deriveAndSetBitrates estimates bitrates for variants without bitrate information.
 // Only count unshifted or shifted segments, not both.
 func (ch *channel) deriveAndSetBitrates() {
-	for name, trd := range ch.trDatas {
+	trDatas, _ := ch.trDataSnapshot()
+	for name, trd := range trDatas {
 		if trd.init.Moov.Trak.Mdia.Minf.Stbl.Stsd.GetBtrt() == nil {
 			// Estimate bitrate from the segments available
 			sdb := ch.segTimesGen.segDataBuffers[name]
@@ -523,7 +556,8 @@ func (ch *channel) deriveAndSetBitrates() {
 }
 
 func (ch *channel) deriveAndSetFrameRates(log *slog.Logger) {
-	for name, trd := range ch.trDatas {
+	trDatas, _ := ch.trDataSnapshot()
+	for name, trd := range trDatas {
 		sdb := ch.segTimesGen.segDataBuffers[name]
 		if trd.contentType != "video" {
 			continue
